@@ -456,7 +456,10 @@ RelocAlphabet ==       \* C09: even-sized statements; absolute (#a, @#b, .word a
     I1("movx", A), I1("movi", Bin("-", Dot, A)), I1("movr", Bin("+", Dot, Num(4))),
     W(<<A>>), W(<<B, Bin("-", B, A)>>), W(<<Dot, Bin("+", Bin("-", B, A), Bin("-", B, A))>>), Blkw(Num(2)),
     Lab("a"), Lab("b"), Const("c", Bin("+", A, Num(2))), W(<<Sym("c")>>), Rep(2, << I1("movr", A), W(<<Dot>>) >>), Inc(1), Inc(2),
-    LabX("g"), I1("movr", Sym("x")), I1("br", Sym("x")), Inc(3), Inc(4), W(<< Num(2), Num(4), Num(6) >>), W(<< Num(3), A >>), W(<< Num(8), Num(16), Num(24) >>) }     \* the first two are rendered as implicit word lists
+    LabX("g"), I1("movr", Sym("x")), I1("br", Sym("x")), Inc(3), Inc(4), W(<< Num(2), Num(4), Num(6) >>), W(<< Num(3), A >>), W(<< Num(8), Num(16), Num(24) >>),      \* the first two are rendered as implicit word lists
+    \* a position-independent skip (outside the premise of RelocationLaw, but every image is still predicted and compared at every base:
+    \* the skip target lies above 0o100000 at the high bases)
+    DotSet(Bin("+", Dot, Num(4))) }
 RelocTwoAlphabet ==    \* C09: two linked files of one or two statements each (also files without anything that has to wait)
   { I0("nop"), Blkw(Num(1)), Lab("a"), LabX("g"), W(<<A>>), I1("movi", A), I1("movr", A), I1("movr", Sym("g")), W(<<Sym("g"), Dot>>) }
 RelocCoreAlphabet ==   \* C09: few statements, all programs of 4: includes referring to each other behind / in front of code and labels
